@@ -12,8 +12,8 @@ RULE = ("one Timer (timeout 2|3, one-shot|auto-restart, args None|[7]|7|'ab'|0|[
         "every firing; actions {nothing, stop(), restart(1), restart(2)} with <= B non-nothing actions; non-trivial = an "
         "action was taken at an expiry instant or from the callback; distinct = distinct (configuration, actions, firing log)")
 ASSUMPTIONS = [
-    "left open by the statement and treated leniently (only 'never raises' applies afterwards): restart() of a stopped "
-    "timer and of a one-shot timer that has already expired; the period of an auto-restart timer after restart(tau) may be "
+    "after stop() the timer never fires again, also not after a later restart(); left open by the statement and treated "
+    "leniently (only 'never raises' applies afterwards): restart() of a one-shot timer that has already expired; the period of an auto-restart timer after restart(tau) may be "
     "tau or the original timeout (the firing at r+tau itself is exact)",
 ]
 ACTS = ["nothing", "stop", ("restart", 1), ("restart", 2)]
@@ -63,8 +63,10 @@ def execute(ch, cfg):
                 ns.add((None, True, period, lenient))
             else:
                 tau = action[1]
-                if stopped or (pending is None and slot != "callback"):
-                    ns.add((None, stopped, period, True))           # unspecified: anything goes from here on
+                if stopped:
+                    ns.add((None, True, period, lenient))           # "after stop() it never fires again" - restart does not revive it
+                elif pending is None and slot != "callback":
+                    ns.add((None, stopped, period, True))           # expired one-shot timer: unspecified, anything goes from here on
                 else:
                     ns.add((now + tau, False, tau, lenient))
                     ns.add((now + tau, False, period, lenient))
